@@ -42,6 +42,8 @@ def _alphabets(seed, n, dist, tier):
     extra = sorted(rng.choice(16, letters, replace=False).tolist())
     wide = [0, 100, 200, 250]                                      # exactly representable in every storage dtype incl. float16, but its squares
     xs = [a[:letters] for a in base_x] + [extra, wide[:letters]]   # and sums are NOT representable in float16: storage must be promoted first
+    if dist == 'dpa':
+        xs.append([0, 1001, 1050, 2047][:letters])                  # each value is a float16, sums of two or more are not (odd integers above 2048): class sums must be taken in the working precision
     ys = [[0, 1, 2, 3][:letters], sorted(rng.choice(8, letters, replace=False).tolist())] if dist != 'dpa' else [[0, 1]]
     return xs, ys
 
